@@ -327,7 +327,8 @@ def run(ctx):
         ctx.ob("HKMEMBERS", "members|whole-chain", "members" in parent_calls(mm), "members() prepends the parent's members() (recursively: every ancestor)", mm.file, mm.line)
         ctx.ob("HKMEMBERS", "member_count|whole-chain", bool(parent_calls(mc) & {"member_count", "members"}), "member_count() takes the inherited part from " + (str(sorted(parent_calls(mc))) if parent_calls(mc) else "the direct parent's own member list") + "; it must count every ancestor like members() (recursive member_count / members)", mc.file, mc.line, sample=True)
     n_bf = 0
-    for nm in ("havok::binary_tag_file_reader::HavokBinaryTagFileReader::<'a>::read_object", "havok::binary_tag_file_reader::HavokBinaryTagFileReader::<'a>::read_array"):
+    # every reader of a presence bit field in the tag-file reader (read_object, the struct-array reader, wherever it lives)
+    for nm in sorted(n_ for n_, b_ in prog.raw_bodies.items() if n_.startswith("havok::binary_tag_file_reader::") and not n_.endswith("::read_bit_field") and any((t_.get("res") or "").endswith("::read_bit_field") for _bi, t_ in b_.calls())):
         rb_ = prog.body(nm)
         if not rb_:
             continue
@@ -455,12 +456,14 @@ def run(ctx):
         ctx.fail_closed("HKNAMES", "HavokAnimationContainer::new not found")
     ob_ = prog.body("havok::object::HavokRootObject::find_object_by_type")
     if ob_:
-        oix = index_of(ob_)
         strs = set()
-        for _b, t in ob_.calls():
-            if _last(t.get("res")) == "get":
-                for a in t["args"]:
-                    strs |= derive(oix, a).strs
+        for xb_ in prog.deep_bodies("havok::object::HavokRootObject::find_object_by_type"):  # the search may sit in closures / a predicate fn
+            oix = index_of(xb_)
+            for _b, t in xb_.calls():
+                if _last(t.get("res")) == "get":
+                    for a in t["args"]:
+                        strs |= derive(oix, a).strs
+        oix = index_of(ob_)
         ctx.ob("HKNAMES", "root-variants", strs == {"namedVariants", "className", "variant"}, f"the root object is searched through members {sorted(strs)}; must be namedVariants / className / variant", ob_.file, ob_.line)
     else:
         ctx.fail_closed("HKNAMES", "find_object_by_type not found")
